@@ -1,4 +1,4 @@
-import BoxoModel.C31.Model
+import BoxoModel.C31.Tree
 /-! Line-protocol driver for C31 (see harness/cmd/c31/main.go for the op lines).
 
   build …                                   → ok
@@ -6,8 +6,10 @@ import BoxoModel.C31.Model
       <tree> ::= L <label> <size> | R <label> <size> | N <label> <filesize> <k> (<linksize> <tree>)^k
   range <hex>                               → ok <from> <to|*> | err
   raw <segs>                                → ok
+  tree <dump>                               → ok blocks=<number of distinct labels>
   car f<k> <scope> <rangehex|-> <dups>      → ok <labels> | stream-error <labels> | http-400
-  card <segs> <scope> <rangehex|-> <dups>   → ok | http-400
+  card <segs> <scope> <rangehex|-> <dups>   → ok <labels> | absent <labels> | http-400
+  (labels = the expected block SET of the CAR over the whole tree: `C31.carBlocks`)
 -/
 open C31 FileTree
 
@@ -60,16 +62,111 @@ partial def parseKids : Nat → List String → Option (List (FNode × Nat) × L
   | _, _ => none
 end
 
+abbrev Table := List (Bytes × Bytes)
+
+def tableH (t : Table) (k : Bytes) : Bytes :=
+  match t.find? (fun e => e.1 == k) with
+  | some e => e.2
+  | none => []
+
+def hexNat (s : String) : Option Nat :=
+  s.toList.foldlM (fun acc c => (hexVal c).map (acc * 16 + ·)) 0
+
+mutual
+partial def parseTr : List String → Option (Tr × List String × Table)
+  | "F" :: l :: raw :: r => do
+    let l ← l.toNat?
+    let (t, ls, r') ← parseTree r
+    pure (.file l (raw == "1") t ls, r', [])
+  | "S" :: l :: r => do
+    let l ← l.toNat?
+    pure (.sym l, r, [])
+  | "D" :: l :: n :: r => do
+    let l ← l.toNat?
+    let n ← n.toNat?
+    let (es, r', t) ← parseTrEnts n r
+    pure (.dir l es, r', t)
+  | "H" :: l :: fo :: bf :: r => do
+    let l ← l.toNat?
+    let fo ← fo.toNat?
+    let bf ← hexNat bf
+    let (sl, r', t) ← parseTrShard fo r
+    pure (.hdir l fo bf sl, r', t)
+  | _ => none
+partial def parseTrEnts : Nat → List String → Option (List (Bytes × Tr) × List String × Table)
+  | 0, r => some ([], r, [])
+  | n + 1, name :: r => do
+    let name ← unhex name
+    let (nd, r', t1) ← parseTr r
+    let (es, r'', t2) ← parseTrEnts n r'
+    pure ((name, nd) :: es, r'', t1 ++ t2)
+  | _, _ => none
+partial def parseTrShard (fanout : Nat) : List String → Option (HSlots Tr × List String × Table)
+  | n :: r => do
+    let n ← n.toNat?
+    parseTrSlots fanout n r
+  | _ => none
+partial def parseTrSlots (fanout : Nat) : Nat → List String → Option (HSlots Tr × List String × Table)
+  | 0, r => some (.nil, r, [])
+  | n + 1, "v" :: name :: hash :: r => do
+    let name ← unhex name
+    let hash ← unhex hash
+    let (nd, r', t1) ← parseTr r
+    let (sl, r'', t2) ← parseTrSlots fanout n r'
+    pure (.val name nd sl, r'', (name.drop (C33.padLen fanout), hash) :: t1 ++ t2)
+  | n + 1, "t" :: name :: l :: fo :: bf :: r => do
+    let name ← unhex name
+    let l ← l.toNat?
+    let fo ← fo.toNat?
+    let bf ← hexNat bf
+    let (sub, r', t1) ← parseTrShard fo r
+    let (sl, r'', t2) ← parseTrSlots fanout n r'
+    pure (.sub name l fo bf sub sl, r'', t1 ++ t2)
+  | _, _ => none
+end
+
+/-- `<hex>:<hashhex>,…` or `-` -/
+def parseSegs (t : String) : Option (List Bytes × Table) :=
+  if t == "-" then some ([], [])
+  else (t.splitOn ",").foldrM (fun t (acc : List Bytes × Table) =>
+    match t.splitOn ":" with
+    | [s, h] => do
+      let s ← unhex s
+      let h ← unhex h
+      pure (s :: acc.1, (s, h) :: acc.2)
+    | _ => none) ([], [])
+
 def insertSorted (x : Nat) : List Nat → List Nat
   | [] => [x]
   | y :: r => if x < y then x :: y :: r else if x = y then y :: r else y :: insertSorted x r
 
-def showLabels (f : FileRec) (idxs : List Nat) : String :=
-  let ls := idxs.foldl (fun acc i => insertSorted (f.labels.getD i 0) acc) []
-  ",".intercalate (ls.map toString)
+def showSet (ls : List Nat) : String :=
+  ",".intercalate ((ls.foldl (fun acc l => insertSorted l acc) []).map toString)
 
 structure St where
-  files : List (Nat × FileRec) := []
+  files : List (Nat × String) := []     -- file k ↦ its path token
+  root : Option Tr := none
+  table : Table := []
+
+def parseScope (s : String) : Scope :=
+  if s == "block" then .block else if s == "entity" then .entity else .all
+
+/-- the CAR request: `none` = bad op -/
+def carLine (st : St) (segsTok scope rng : String) : Option String := do
+  let root ← st.root
+  let (segs, t) ← parseSegs segsTok
+  let r : Option (Option Rng) :=
+    if rng == "-" then some none
+    else match unhex rng with
+      | some s => (newDagByteRange s).map some
+      | none => none
+  match r with
+  | none => pure "http-400"
+  | some r =>
+    let H := tableH (t ++ st.table)
+    match carBlocks H root segs (parseScope scope) (r.getD ⟨0, none⟩) with
+    | some (e, bl) => pure ((if e then "stream-error " else "ok ") ++ showSet bl)
+    | none => pure ("absent " ++ showSet (pathBlocks H root segs))
 
 def showInt (i : Int) : String := toString i
 
@@ -78,12 +175,15 @@ def step (st : St) (line : String) : St × String :=
   | ["case", n] => ({}, s!"case {n}")
   | ["end"] => ({}, "end")
   | "build" :: _ => (st, "ok")
-  | "file" :: k :: _ :: ts =>
+  | "tree" :: ts =>
+    match parseTr ts with
+    | some (t, [], tb) => ({ st with root := some t, table := tb },
+        s!"ok blocks={((allBlocks t).foldl (fun acc l => insertSorted l acc) []).length}")
+    | _ => (st, "bad-op")
+  | "file" :: k :: segs :: ts =>
     match k.toNat?, parseTree ts with
-    | some k, some (t, ls, []) =>
-      let raw := match ts with | "R" :: _ => true | _ => false
-      ({ files := (k, { tree := t, labels := ls, rootRaw := raw }) :: st.files },
-        s!"ok size={size t} ws={wellSized t && posSized t}")
+    | some k, some (t, _, []) =>
+      ({ st with files := (k, segs) :: st.files }, s!"ok size={size t} ws={wellSized t && posSized t}")
     | _, _ => (st, "bad-op")
   | ["range", h] =>
     match unhex h with
@@ -99,26 +199,8 @@ def step (st : St) (line : String) : St × String :=
     | some k =>
       match st.files.find? (·.1 == k) with
       | none => (st, "bad-op")
-      | some (_, f) =>
-        let r : Option (Option Rng) :=
-          if rng == "-" then some none
-          else match unhex rng with
-            | some s => (newDagByteRange s).map some
-            | none => none
-        match r with
-        | none => (st, "http-400")
-        | some r =>
-          if scope == "block" then (st, "ok " ++ showLabels f [0])
-          else if scope == "all" || scope == "-" then (st, "ok " ++ showLabels f (List.range (nodes f.tree)))
-          else if f.rootRaw then (st, "ok " ++ showLabels f [0])
-          else
-            let (e, bl) := entityBlocks f.tree (r.getD ⟨0, none⟩)
-            (st, (if e then "stream-error " else "ok ") ++ showLabels f bl)
-  | ["card", _, _, rng, _] =>
-    if rng == "-" then (st, "ok")
-    else match unhex rng with
-      | some s => (st, if (newDagByteRange s).isSome then "ok" else "http-400")
-      | none => (st, "bad-op")
+      | some (_, segs) => (st, (carLine st segs scope rng).getD "bad-op")
+  | ["card", segs, scope, rng, _] => (st, (carLine st segs scope rng).getD "bad-op")
   | _ => (st, "bad-op")
 
 partial def loop (h : IO.FS.Stream) (out : IO.FS.Stream) (st : St) : IO Unit := do
